@@ -526,3 +526,57 @@ func stripDigits(s string) string {
 	}
 	return string(out)
 }
+
+// TestVF_C06_CommitmentAccess: in a combined session (disclosure proofs and one or several issuance
+// commitments in one list) the issuer picks the commitment proofs out of the list by position among the
+// commitment proofs; the k-th one it gets must be the k-th one the holder made, whatever else is in the list.
+func TestVF_C06_CommitmentAccess(t *testing.T) {
+	rec := vfh.New(t, "C06")
+	defer rec.Flush()
+	rec.Check(func(rt *rapid.T) {
+		drawLibSeed(t, rt)
+		s := &c02Session{worlds: map[int]*revWorld{}, secret: genSecret(rt, "secret"), keys: []*vfk.KeyPair{getKey("toyrev", rapid.IntRange(0, 7).Draw(rt, "key"))}}
+		n := rapid.IntRange(1, 5).Draw(rt, "n")
+		for i := 0; i < n; i++ {
+			s.members = append(s.members, c02Member{kind: rapid.SampledFrom([]string{"disc", "issue", "issue+blind", "disc+range", "issue"}).Draw(rt, fmt.Sprintf("kind%d", i)), key: 0})
+		}
+		ctx, nonce := bi(int64(rapid.IntRange(1, 1000).Draw(rt, "ctx"))), bi(int64(rapid.IntRange(1, 1<<30).Draw(rt, "nonce")))
+		pl, err := s.build(ctx, nonce, false)
+		if err != nil {
+			rec.Fail(rt, "honest-list-build-error", map[string]any{"session": s.String(), "err": err.Error()})
+			return
+		}
+		var want []*ProofU
+		for _, p := range pl {
+			if u, ok := p.(*ProofU); ok {
+				want = append(want, u)
+			}
+		}
+		mixed := len(want) > 0 && len(want) < len(pl)
+		rec.Case(fmt.Sprintf("commitment-access/commitments=%d/of=%d", len(want), len(pl)), mixed, "ca|"+s.String())
+		det := map[string]any{"session": s.String()}
+		for k := 0; k <= len(want); k++ {
+			var got *ProofU
+			var gerr error
+			if ps := vfh.Guard(func() { got, gerr = pl.GetProofU(k) }); ps != "" {
+				rec.Fail(rt, ps+":GetProofU", det)
+				return
+			}
+			if k < len(want) {
+				if gerr != nil || got != want[k] {
+					det["k"] = k
+					rec.Fail(rt, "commitment-proof-picked-from-list-is-not-the-holders-kth", det)
+					return
+				}
+			} else if gerr == nil {
+				det["k"] = k
+				rec.Fail(rt, "commitment-proof-returned-beyond-the-last", det)
+				return
+			}
+		}
+		first, ferr := pl.GetFirstProofU()
+		if (len(want) == 0) != (ferr != nil) || (len(want) > 0 && first != want[0]) {
+			rec.Fail(rt, "first-commitment-proof-wrong", det)
+		}
+	})
+}
